@@ -155,9 +155,12 @@ impl HdlcDeframer {
                 // frame of exactly max_size is dropped in the middle of its
                 // closing flag.
                 if bits.len() > self.max_size * 8 + 7 {
-                    // Too long. Keep the current bit in the flag search, since
-                    // it may be the start of the closing flag.
-                    return Ok(State::Unsynced(0x7f | (bit << 7)));
+                    // Too long. Back to searching for a flag. The last bits
+                    // seen are a zero, `ones` ones, and the current bit. Keep
+                    // them in the search, since they may be the beginning of
+                    // the closing flag.
+                    let seen = 0xffu8 & !(1 << (7 - *ones));
+                    return Ok(State::Unsynced((seen >> 1) | (bit << 7)));
                 }
                 if bit > 0 {
                     bits.push(1);
